@@ -268,7 +268,7 @@ func runC02(seed uint64, n int, tier string) {
 }
 
 func runC02Case(id string, c *c02Case) {
-	defer recoverCase(id, c)
+	defer watchCase(id, c)()
 	cs := &Case{ID: id, Kind: c.Version + ":" + c.Class, HypOK: c.Class == "wellformed", Replay: c}
 	vtag := "11"
 	if c.Version == "1.0" {
